@@ -278,7 +278,7 @@ func stCheckT(test, conc string, want *stT, tail map[string]string, n1, n2 int, 
 					"%s alt=%s returned a result for an input that must be reported as one of %v", test, alt.name, want.Errs)
 			}
 			ok := false
-			for _, e := range want.Errs {
+			for _, e := range append(append([]string(nil), want.Errs...), want.May...) {
 				if err == stErrOf(e) {
 					ok = true
 				}
